@@ -161,6 +161,16 @@ impl OrderedCallGraph {
             return Err(());
         }
         // Last but not least, we make sure that the nodes can actually be ordered.
+        #[cfg(pavex_verif)]
+        super::verif_dump::emit(format!(
+            "{{\"ev\":\"after_cx\",\"g\":{}}}",
+            super::verif_dump::graph_json(
+                &call_graph.call_graph,
+                copy_checker,
+                component_db,
+                computation_db
+            )
+        ));
         let call_graph = ordering_stalemates(
             call_graph,
             copy_checker,
@@ -169,6 +179,17 @@ impl OrderedCallGraph {
             krate_collection,
             diagnostics,
         );
+        #[cfg(pavex_verif)]
+        super::verif_dump::emit(format!(
+            "{{\"ev\":\"after_os\",\"ndiag\":{},\"g\":{}}}",
+            diagnostics.len() - n_diagnostics,
+            super::verif_dump::graph_json(
+                &call_graph.call_graph,
+                copy_checker,
+                component_db,
+                computation_db
+            )
+        ));
         if diagnostics.len() > n_diagnostics {
             return Err(());
         }
